@@ -1,5 +1,7 @@
 """C08 — a submission reaches every configured node and succeeds iff one accepts, within the
-time-out (spec/Submitter.tla, spec/SubmitterScatter.tla)."""
+time-out, for every submission of a history on one long-lived submitter instance (spec/Submitter.tla,
+spec/SubmitterInst.tla, spec/SubmitterClassifier.tla, spec/SubmitterScatter.tla)."""
+import concurrent.futures
 import json
 import os
 import random
@@ -28,24 +30,58 @@ def _d12_node(kind, n):
     return False
 
 
+def calls_of(s):
+    """The submissions of a scenario (a scenario is a history on one instance; the older groups
+    are histories of one submission)."""
+    if s.get("calls"):
+        return s["calls"]
+    return [{"kind": s.get("kind"), "items": s.get("items"), "nodes": s.get("nodes", [])}]
+
+
 def sig_of(s):
     if s.get("sub") == "scatter":
         return {"sub": "scatter", "items": s.get("items")}
-    return {"sub": s.get("sub"), "kind": s.get("kind"),
-            "error_json_without_failures": any(_d12_node(s.get("kind"), n) for n in s.get("nodes", [])),
-            "att_mixed_batches": s.get("kind") == "att" and any(
-                n.get("reason") == "attMixed" and n.get("out") == "error" for n in s.get("nodes", []))}
+    cs = calls_of(s)
+    sig = {"sub": s.get("sub"), "kind": s.get("kind") if not s.get("calls") else "+".join(c["kind"] for c in cs),
+           "error_json_without_failures": any(_d12_node(c["kind"], n) for c in cs for n in c["nodes"]),
+           "att_mixed_batches": any(c["kind"] == "att" and n.get("reason") == "attMixed" and n.get("out") == "error"
+                                    for c in cs for n in c["nodes"])}
+    if s.get("calls"):
+        sig["mode"] = s.get("mode")
+        sig["calls"] = len(cs)
+    return sig
 
 
 def nontrivial(s, rows):
     """The scenario exercises C08's antecedent: a submission with at least one faulty node
-    (anything but a prompt acceptance) that was really offered to some node, or a Scatter run
-    that has something to split."""
+    (anything but a prompt acceptance with a working version query) that was really offered to some
+    node, or a Scatter run that has something to split.  A history additionally needs a second
+    submission that was really made on the same instance."""
     if s.get("sub") == "scatter":
         return s.get("items", 0) > 1
-    faulty = any(n.get("out") != "accept" for n in s.get("nodes", []))
+    cs = calls_of(s)
+    faulty = any(n.get("out") != "accept" or n.get("ver") == "fail" for c in cs for n in c["nodes"])
     called = any(r.get("ev") == "Call" for r in rows)
+    if s.get("calls"):
+        called = called and any(r.get("ev") == "Call" and r.get("call", 1) > 1 for r in rows)
     return faulty and called
+
+
+def hist_scenarios(tier, rnd):
+    """Histories of submissions on ONE instance (TLC: Scen_SubmitterHist)."""
+    out = []
+    carry = vf.tlc_scenarios(PID, "Scen_SubmitterHist", "Scen_SubmitterHist_carry.cfg", exhaustive=True, name="scen-hcarry")
+    over = vf.tlc_scenarios(PID, "Scen_SubmitterHist", "Scen_SubmitterHist_overlap.cfg", exhaustive=True, name="scen-hover")
+    if len(carry) != 6912 or len(over) != 2304:
+        raise vf.Broken("expected 6912 carry and 2304 overlap histories, got %d and %d" % (len(carry), len(over)))
+    n = 150 if tier == "quick" else 3000
+    sim = vf.tlc_scenarios(PID, "Scen_SubmitterHist", "Scen_SubmitterHist_sim.cfg", num=max(60, n // 6), depth=24, name="scen-hsim")
+    rnd.shuffle(sim)
+    if tier == "quick":
+        carry = rnd.sample(carry, 220)
+        over = rnd.sample(over, 110)
+    out += carry + over + sim[:n]
+    return out
 
 
 def scenarios(tier):
@@ -76,8 +112,60 @@ def scenarios(tier):
         sizes = list(range(1, 25)) + sorted(rnd.sample(range(25, 201), 36))
     else:
         sizes = list(range(1, 201))
+    out += hist_scenarios(tier, rnd)
     out += [{"sub": "scatter", "items": i, "maxConc": 64} for i in sizes]
     return [dict(s, sc=i + 1) for i, s in enumerate(out)]
+
+
+# (module, cfg, invariants one of which TLC must report as violated) - designs that carry state between
+# the submissions of one instance and are right for every submission made alone on a fresh instance
+DEVIATIONS = [
+    ("Submitter", "MC_Submitter_dev_memofail.cfg", ("SuccessIff", "FlagSound")),
+    ("Submitter", "MC_Submitter_dev_sharedsem.cfg", ("OfferedInFull", "Independence")),
+    ("SubmitterInst", "MC_SubmitterInst_memofail.cfg", ("SuccessIffC",)),
+    ("SubmitterInst", "MC_SubmitterInst_sharedsem.cfg", ("OfferedC", "IndependenceC")),
+    ("SubmitterInst", "MC_SubmitterInst_sharedflag.cfg", ("SuccessIffC",)),
+]
+
+
+def model_checks(v, tier):
+    """Exhaustive TLC runs of the designs that must satisfy C08 and vacuity self-checks (designs with state
+    carried between submissions that TLC must reject), side by side."""
+    good = [("Submitter", "MC_Submitter.cfg", 900), ("MC_SubmitterScatter", "MC_SubmitterScatter.cfg", 300),
+            ("Submitter", "MC_Submitter_hist.cfg", 900), ("Submitter", "MC_Submitter_hist_cacheok.cfg", 900),
+            ("SubmitterInst", "MC_SubmitterInst_percall.cfg", 900)]
+    if tier == "thorough":
+        good += [("Submitter", "MC_Submitter_big.cfg", 1800), ("Submitter", "MC_Submitter_hist_big.cfg", 1800),
+                 ("Submitter", "MC_Submitter_hist_cacheok_big.cfg", 1800),
+                 ("SubmitterInst", "MC_SubmitterInst_percall_big.cfg", 1800)]
+
+    def run_good(job):
+        module, cfg, timeout = job
+        return vf.tlc_exhaustive(PID, module, cfg, workers=1 if "Scatter" in cfg else 4, timeout=timeout,
+                                 coverage=(cfg == "MC_Submitter_big.cfg"))
+
+    def run_dev(job):
+        module, cfg, expect = job
+        r = vf.tlc(PID, "dev-" + cfg.replace(".cfg", ""), module, cfg, workers=2, timeout=600)
+        if r["kind"] != "invariant" or r["violated"] not in expect:
+            raise vf.Broken("model self-check failed: %s/%s does not violate one of %s (%s %s)\n%s" % (
+                module, cfg, expect, r["kind"], r["violated"], r["out"][-2000:]))
+        vf.log("model self-check: %s/%s violates %s over histories (as it must)" % (module, cfg, r["violated"]))
+        return r
+
+    ex = concurrent.futures.ThreadPoolExecutor(max_workers=5)
+    fg = [ex.submit(run_good, j) for j in good]
+    fd = [ex.submit(run_dev, j) for j in DEVIATIONS]
+
+    def join():
+        try:
+            for f in fg:
+                v.add_mc(f.result())
+            for f in fd:
+                f.result()
+        finally:
+            ex.shutdown(wait=True, cancel_futures=True)
+    return join
 
 
 def run(tier):
@@ -87,18 +175,24 @@ def run(tier):
         "Env_ErrorShapes: beacon nodes are scripted fakes at the eth2client submitter interfaces; their version strings and error texts (lighthouse/teku/nimbus rejection bodies) are the shapes the submitter's own parsers document",
         "timing: T = 200 ms, instants classified before/ambiguous/after with a 50 ms tolerance; a scenario during which a scheduling probe saw a stall > 20 ms is re-run and finally judged with every instant ambiguous",
         "immediate submitter: no time-out is configured there, its return instant and client-specific tolerance are not judged",
+        "Env_ClientFixedPerAddress: within one history a node keeps its client type (the property lets the instance remember a client type a node reported at a successful lookup)",
+        "Env_VersionStableWithinOverlap: while two submissions overlap, a node's version query either works for both or fails for both",
     ]
-    v.add_mc(vf.tlc_exhaustive(PID, "Submitter", "MC_Submitter.cfg"))
-    v.add_mc(vf.tlc_exhaustive(PID, "MC_SubmitterScatter", "MC_SubmitterScatter.cfg", workers=1))
-    if tier == "thorough":
-        v.add_mc(vf.tlc_exhaustive(PID, "Submitter", "MC_Submitter_big.cfg", coverage=True, timeout=1500))
-    sc = scenarios(tier)
+    join = model_checks(v, tier)     # TLC runs side by side with the scenario generation ...
+    try:
+        sc = scenarios(tier)
+    finally:
+        join()                       # ... but never with the timed driver
     vf.conformance(v, sc, driver, "Trace_Submitter", "Trace_Submitter.cfg", sig_of, nontrivial, tlc_timeout=1200)
     v.coverage["rule"] = ("multinode: every assignment of the 7 outcomes to 3 nodes (TLC-enumerated) for attestations and sync "
                           "messages (all 8 kinds in thorough, a seeded sample of the others in quick), every assignment of the 4 "
                           "prompt outcomes with concurrency 1 < 3 nodes, the whole classifier table "
                           "(one node, every client x reply shape per kind), plus TLC-simulated "
-                          "submissions (any client x reply shape, 1-4 nodes, concurrency 1-8, payload 1-13); immediate: every "
+                          "submissions (any client x reply shape, 1-4 nodes, concurrency 1-8, payload 1-13); HISTORIES on one instance "
+                          "(TLC: Scen_SubmitterHist): poison x probe pairs (any kind with the first node's version query failing "
+                          "or working, then a kind with tolerated rejections), overlapped pairs of different kinds (a held node "
+                          "reply of the first is released when the second has returned), simulated histories of 2-4 submissions "
+                          "(per submission: kind, payload, per node outcome and version-query outcome); immediate: every "
                           "kind x outcome; util.Scatter: items x concurrency 0..64, one trace line each; non-trivial = at least "
                           "one faulty node and at least one node really called (Scatter: more than one item); distinct by scenario")
     return v.finish()
